@@ -166,6 +166,20 @@ fn run(case: &HashMap<String, String>) -> String {
                 }
             }
         }
+        "txt_cs" => {
+            use std::collections::HashMap;
+            use std::convert::TryFrom;
+            let n: usize = case["n"].parse().unwrap();
+            let mut fails: Vec<&str> = Vec::new();
+            let text = "a".repeat(n);
+            if crate::CharacterString::try_from(text.clone()).is_ok() != (n <= 255) { fails.push("length"); }
+            if crate::CharacterString::try_from(text.as_str()).is_ok() != (n <= 255) { fails.push("length"); }
+            if crate::CharacterString::new(text.as_bytes()).is_ok() != (n <= 255) { fails.push("length"); }
+            let mut map: HashMap<String, Option<String>> = HashMap::new();
+            map.insert("k".to_string(), Some("v".repeat(254)));
+            if crate::rdata::TXT::try_from(map).is_ok() { fails.push("length"); }
+            format!("{{\"outcome\":\"ok\",\"fails\":[{}]}}", fails.iter().map(|s| format!("\"{}\"", s)).collect::<Vec<_>>().join(","))
+        }
         "txt_chunk" | "txt_long" | "txt_attr" | "txt_dup" => {
             use std::collections::HashMap;
             use std::convert::TryFrom;
@@ -261,6 +275,17 @@ fn run(case: &HashMap<String, String>) -> String {
             }
             format!("{{\"outcome\":\"ok\",\"fails\":[{}]}}", fails.iter().map(|s| format!("\"{}\"", s)).collect::<Vec<_>>().join(","))
         }
+        "packet_counts" => {
+            let mut fails: Vec<&str> = Vec::new();
+            if let Ok(p) = Packet::parse(&bytes) {
+                let be = |i: usize| u16::from_be_bytes([bytes[i], bytes[i + 1]]) as usize;
+                let got = [p.questions.len(), p.answers.len(), p.name_servers.len(), p.additional_records.len() + usize::from(p.opt().is_some())];
+                for k in 0..4 {
+                    if be(4 + 2 * k) != got[k] { fails.push("counts"); }
+                }
+            }
+            format!("{{\"outcome\":\"ok\",\"fails\":[{}]}}", fails.iter().map(|s| format!("\"{}\"", s)).collect::<Vec<_>>().join(","))
+        }
         "packet_frame" => {
             let wp: usize = case["walker_pos"].parse().unwrap();
             let mut fails: Vec<&str> = Vec::new();
@@ -268,10 +293,10 @@ fn run(case: &HashMap<String, String>) -> String {
                 Ok(p) => {
                     if bytes.len() < wp + 15 {
                         fails.push("overrun");
-                    } else if p.answers.len() != 2 {
+                    } else if p.answers.len() != 2 && !(p.answers.is_empty() && p.additional_records.len() == 1 && p.opt().is_some()) {
                         fails.push("count");
                     } else {
-                        let r2 = &p.answers[1];
+                        let r2 = if p.answers.len() == 2 { &p.answers[1] } else { &p.additional_records[0] };
                         let addr = u32::from_be_bytes([bytes[wp + 11], bytes[wp + 12], bytes[wp + 13], bytes[wp + 14]]);
                         let ttl = u32::from_be_bytes([bytes[wp + 5], bytes[wp + 6], bytes[wp + 7], bytes[wp + 8]]);
                         let ok = match &r2.rdata {
